@@ -926,7 +926,7 @@ CHECKS = {
                           'FastPasta.C01.conforming_stave_stream_accepted', 'FastPasta.C01.conforming_input_clean_stave', 'FastPasta.C01.run_clean_of_quiet_validators', 'FastPasta.C01.conforming_input_clean_plain',
                           'FastPasta.Proto.spayload_sim', 'FastPasta.Proto.ssegs_sim', 'FastPasta.Proto.frameOk_checks', 'FastPasta.Proto.laneOk_verdict']),
     'C02': dict(modules=['FastPasta.Props.C02', 'FastPasta.Props.C02Run'], run=run_c02, needs_harness=False, corr='run_faulted',
-                theorems=['FastPasta.C02.cdw_index_rule_after_conforming_prefix', 'FastPasta.C02.word_handlers_src', 'FastPasta.C02.word_handlers_nonstave_src', 'FastPasta.C02.check_word_src', 'FastPasta.C02.check_words_src', 'FastPasta.C02.payload_src', 'FastPasta.C02.do_payload_checks_src', 'FastPasta.C02.link_step_src', 'FastPasta.C02.link_run_src', 'FastPasta.C02.link_rel_init', 'FastPasta.C02.stateful_checks_src', 'FastPasta.C02.bc_order_src', 'FastPasta.C02.rdh_sanity_fault_detected', 'FastPasta.C02.rdh_running_fault_detected', 'FastPasta.C02.sanity_mode_no_e11',
+                theorems=['FastPasta.C02.cdw_index_rule_after_conforming_prefix', 'FastPasta.C02.word_handlers_src', 'FastPasta.C02.word_handlers_nonstave_src', 'FastPasta.C02.check_word_src', 'FastPasta.C02.check_words_src', 'FastPasta.C02.payload_src', 'FastPasta.C02.do_payload_checks_src', 'FastPasta.C02.link_step_src', 'FastPasta.C02.link_run_src', 'FastPasta.C02.link_run_src_total', 'FastPasta.C02.link_rel_init', 'FastPasta.C02.stateful_checks_src', 'FastPasta.C02.bc_order_src', 'FastPasta.C02.rdh_sanity_fault_detected', 'FastPasta.C02.rdh_running_fault_detected', 'FastPasta.C02.sanity_mode_no_e11',
                           'FastPasta.C02.ihw_fault_detected', 'FastPasta.C02.tdh_fault_detected', 'FastPasta.C02.tdt_fault_detected',
                           'FastPasta.C02.ddw0_fault_detected', 'FastPasta.C02.ddw0_needs_stop_bit', 'FastPasta.C02.ddw0_needs_page_gt_0',
                           'FastPasta.C02.ihw_needs_stop_0', 'FastPasta.C02.tdh_after_ihw_rules', 'FastPasta.C02.tdh_continuation_rule',
